@@ -289,6 +289,7 @@ type Check struct {
 	Assume    []string
 	Trusted   []string
 	Workers   int // 0 = NumCPU
+	Env       []string // extra environment for the workers; "{scratch}" is replaced by the scratch directory
 	Body      func(c *Ctx)
 	// Finish runs in the parent after merging (optional).
 	Finish func(r *Result, extra map[string]any)
@@ -396,6 +397,9 @@ func RunParent(ck *Check, tier string, seed int64) int {
 		out := filepath.Join(scratch, fmt.Sprintf("w%d.json", i))
 		cmd := exec.Command(exe, "-worker", fmt.Sprintf("%d/%d", i, n), "-out", out, "-start", strconv.FormatInt(start.UnixNano(), 10), ck.ID, tier)
 		cmd.Env = append(os.Environ(), "GOMAXPROCS=1", "VERIF_SEED="+strconv.FormatInt(seed, 10))
+		for _, e := range ck.Env {
+			cmd.Env = append(cmd.Env, strings.ReplaceAll(strings.ReplaceAll(e, "{scratch}", scratch), "{shard}", strconv.Itoa(i)))
+		}
 		logf := out + ".log"
 		lf, _ := os.Create(logf)
 		cmd.Stdout = lf
